@@ -53,6 +53,9 @@ ExcIsInst = z3.Function('ExcIsInst', Val, INT, BOOL)    # isinstance(exc, class#
 Truthy = z3.Function('Truthy', Val, BOOL)               # bool(x) of an opaque object
 
 
+PRUNE_RLIMIT = int(__import__('os').environ.get('PYVC_PRUNE_RLIMIT', '40000'))
+
+
 class Unsupported(Exception):
     """source left the supported subset (fail closed)"""
     def __init__(self, msg, node=None):
@@ -552,11 +555,11 @@ class Interp(object):
         self.path_prefix = ''
 
     # ---- pruning (only ever on a solver 'unsat' answer) ----------------------
-    def _unsat(self, conds, timeout_ms=150):
-        """quantifier-free part of the path condition only: dropping premises can only lose
-        prunings, never make one wrong"""
+    def _unsat(self, conds):
+        """quantifier-free part of the path condition only, under a deterministic resource limit:
+        dropping premises or giving up early can only lose prunings, never make one wrong"""
         s = z3.Solver()
-        s.set('timeout', timeout_ms)
+        s.set('rlimit', PRUNE_RLIMIT)
         for c in conds:
             if not _has_quantifier(c):
                 s.add(c)
